@@ -89,10 +89,14 @@ package knxnet
 //@   loop 0 decreases len(sdib.Families) - rangeindex
 //@   loop 0 assigns nothing
 
+//@ spec sameOrFresh(a []byte, b []byte) bool = base(a) == base(b) && cap(a) == cap(b) || fresh(a)
+
 //@ func (sdib *SupportedServicesDIB) Unpack(data []byte) (n uint, err error)
 //@   props C01
+//@   ensures [backing] sameOrFresh(sdib.Families, old(sdib.Families))
 //@   assigns *sdib, sdib.Families[0:cap(sdib.Families)]
 //@   loop 0 invariant n <= uint(len(data))
+//@   loop 0 invariant sameOrFresh(sdib.Families, old(sdib.Families))
 //@   loop 0 decreases int(length) - int(n)
 //@   loop 0 assigns sdib.Families, sdib.Families[0:cap(sdib.Families)]
 
@@ -104,6 +108,8 @@ package knxnet
 //@   props C01
 //@   assigns *di, di.UnknownBlocks[0:cap(di.UnknownBlocks)], di.SupportedServices.Families[0:cap(di.SupportedServices.Families)]
 //@   loop 0 invariant n <= uint(len(data))
+//@   loop 0 invariant sameOrFresh(di.UnknownBlocks, old(di.UnknownBlocks))
+//@   loop 0 invariant sameOrFresh(di.SupportedServices.Families, old(di.SupportedServices.Families))
 //@   loop 0 decreases len(data) - int(n)
 //@   loop 0 assigns *di, di.UnknownBlocks[0:cap(di.UnknownBlocks)], di.SupportedServices.Families[0:cap(di.SupportedServices.Families)], length, ty
 
